@@ -3,6 +3,7 @@
   PROPERTY THEOREMS ONLY.
 -/
 import SymfcModel.Model.Inst
+import SymfcModel.Lemmas.Chain
 namespace Symfc.C05
 open Symfc
 
@@ -12,5 +13,32 @@ theorem taylor_constants :
     Gen.solverConst6 =
       [("O2", [(2, -6)]), ("O3", [(3, -3)]), ("O4", [(4, -1)]), ("O2O3", [(2, -6), (3, -3)]),
        ("O3O4", [(3, -3), (4, -1)]), ("O2O3O4", [(2, -6), (3, -3), (4, -1)])] := by decide
+
+/-- C05.a (FC2): the generated divmod chain of `reshape_nN33_nx_to_N3_n3nx` sends the stored entry of atom pair
+    (il, j), Cartesian (a, b), column `col` to row `(j,b)` (the displacement component it multiplies) and to the column
+    block `(il, a)` (the force component it contributes to) — for every N, nx and every index. -/
+theorem reshape_O2_is_the_taylor_layout (N nx il j a b col : Nat) (hj : j < N) (ha : a < 3) (hb : b < 3) :
+    Gen.chainO2.run N nx (((il * N + j) * 3 + a) * 3 + b) col = (3 * j + b, col + (3 * il + a) * nx) :=
+  chainO2_run N nx il j a b col hj ha hb
+
+/-- C05.a (FC3): row ↦ index of `u_{jb} u_{kc}` in the flattened outer product, column block `(il, a)` -/
+theorem reshape_O3_is_the_taylor_layout (N nx il j k a b c col : Nat) (hj : j < N) (hk : k < N)
+    (ha : a < 3) (hb : b < 3) (hc : c < 3) :
+    Gen.chainO3.run N nx ((((il * N + j) * N + k) * 27) + (a * 9 + b * 3 + c)) col
+      = ((3 * j + b) * (3 * N) + (3 * k + c), col + (3 * il + a) * nx) :=
+  chainO3_run N nx il j k a b c col hj hk ha hb hc
+
+/-- C05.a (FC4): row ↦ index of `u_{jb} u_{kc} u_{ld}`, column block `(il, a)` -/
+theorem reshape_O4_is_the_taylor_layout (N nx il j k l a b c d col : Nat) (hj : j < N) (hk : k < N) (hl : l < N)
+    (ha : a < 3) (hb : b < 3) (hc : c < 3) (hd : d < 3) :
+    Gen.chainO4.run N nx (((((il * N + j) * N + k) * N + l) * 81) + (a * 27 + b * 9 + c * 3 + d)) col
+      = (((3 * j + b) * (3 * N) + (3 * k + c)) * (3 * N) + (3 * l + d), col + (3 * il + a) * nx) :=
+  chainO4_run N nx il j k l a b c d col hj hk hl ha hb hc hd
+
+/-- the reshaped matrices have the shapes the displacement monomials need: 3N, (3N)², (3N)³ rows -/
+theorem reshape_output_rows (N nx : Nat) :
+    Gen.chainO2.outRows.eval N nx = 3 * N ∧ Gen.chainO3.outRows.eval N nx = 9 * N ^ 2 ∧
+    Gen.chainO4.outRows.eval N nx = 27 * N ^ 3 :=
+  ⟨chainO2_outRows N nx, chainO3_outRows N nx, chainO4_outRows N nx⟩
 
 end Symfc.C05
